@@ -669,7 +669,7 @@ def expand_includes(path, depth=0):
     return out
 
 
-def process(template_path, repo, meta, twin=None):
+def process(template_path, repo, meta, twin=None, stub=()):
     tmpl = expand_includes(template_path)
     out = []
     sources = {}
@@ -844,11 +844,29 @@ def process(template_path, repo, meta, twin=None):
                     sig = re.sub(pat, am.group(2).strip(), sig)
                     body = re.sub(pat, am.group(2).strip(), body)
                     counts["R8"] = counts.get("R8", 0) + 1
-        body2 = apply_rewrites(body, counts)
-        if twin is not None and twin == new_name + "@" + container:
-            # vacuity twin: the precondition must not be contradictory, so `assert(false)` has to FAIL
-            sections = [("hint", "start", "assert(false);")] + sections
-        body3 = splice(body2, sections, name)
+        stub_reason = None
+        key = new_name + "@" + container
+        if key in stub:
+            stub_reason = "the Verus front end rejects the current body of this function"
+        else:
+            try:
+                body2 = apply_rewrites(body, counts)
+                if twin is not None and twin == key:
+                    # vacuity twin: the precondition must not be contradictory, so `assert(false)` has to FAIL
+                    sections = [("hint", "start", "assert(false);")] + sections
+                body3 = splice(body2, sections, name)
+            except ExtractError as e:
+                stub_reason = "extraction: %s" % e
+        if stub_reason is not None:
+            # The body cannot be brought under contract on this tree (lost anchor / unsupported construct). The function is
+            # emitted as a contract-only stub: its own obligation is UNDECIDED, every other function of the unit is still
+            # checked against this contract (modular verification: callers see the callee's contract, not its body).
+            out.append("#[verifier::external_body]\n" + sig + "\n" + spec_text + "{ unimplemented!() }")
+            meta["items"].append({
+                "kind": "fn", "file": rel, "container": container, "name": name, "emitted_as": new_name,
+                "span": [hs, c + 1], "sha256": hashlib.sha256(S.src[hs:c + 1].encode()).hexdigest(),
+                "rewrites": counts, "stubbed": stub_reason, "body_lines": body.count("\n") + 1})
+            continue
         out.append(sig + "\n" + spec_text + body3)
         meta["items"].append({
             "kind": "fn", "file": rel, "container": container, "name": name, "emitted_as": new_name,
